@@ -15,7 +15,7 @@ use vpmodel::spec::{hexser, mono, ChainSpec};
 pub const DEF: PropDef = PropDef {
     id: "C14",
     level: "exploration",
-    rule: "a valid generated base chain (8 coins) in which 1..3 fields - scriptPubKey, scriptSig or a witness item - are replaced by bytes from the hostile classes (truncated pushes of every width, PUSHDATA4 with huge lengths, every leading opcode, invalid UTF-8 after OP_RETURN, witness-program lookalikes with illegal lengths, hundreds to thousands of pushes, multisig-like scripts with >255 pushes, raw bytes up to 10 KB quick / 100 KB thorough); all five callbacks are run at verbosity 0, -v or -vv (debug/trace logging formats the evaluated patterns). Oracle: exit 0 for every callback, and every row/figure not derived from the replaced field equals the reference model (scriptSig and witness are opaque: exact equality; for a replaced scriptPubKey the address column of that row, its unspent row, a zero balance row and its type count are masked). Non-trivial = the hostile bytes are not a recognised template; distinct by hostile bytes.",
+    rule: "a valid generated base chain (8 coins) in which 1..3 fields - scriptPubKey, scriptSig or a witness item - are replaced by bytes from the hostile classes (truncated pushes of every width, PUSHDATA4 with huge lengths, every leading opcode, invalid UTF-8 after OP_RETURN, witness-program lookalikes with illegal lengths, hundreds to thousands of pushes, multisig-like scripts with >255 pushes, raw bytes up to 10 KB quick / 100 KB thorough); all five callbacks are run at verbosity 0, -v or -vv (debug/trace logging formats the evaluated patterns). Oracle: exit 0 for every callback, and every row/figure not derived from the replaced field equals the reference model (scriptSig and witness are opaque: exact equality; for a replaced scriptPubKey the address column of that row, its unspent row, a zero balance row and its type count are masked). Non-trivial = the hostile bytes are not a recognised template; distinct by hostile bytes. 30 % of the cases run all five callbacks again with --verify -s 1: exit 0 and the result of the run without --verify.",
     assumptions: &["replaced outputs get value 0 so that balances of other addresses are unaffected", "txids are recomputed by the model (they legitimately change with non-witness bytes)"],
     run,
     replay,
@@ -45,6 +45,9 @@ pub struct Case {
     /// number of -v flags (0 = info, 1 = debug, 2 = trace)
     #[serde(default)]
     pub verbose: u8,
+    /// run with --verify (from height 1, so that any block 0 will do; the replaced fields are part of a consistent chain)
+    #[serde(default)]
+    pub verify: bool,
 }
 
 pub fn hostile_bytes(tier: Tier) -> BS<Vec<u8>> {
@@ -68,7 +71,7 @@ pub fn strategy(tier: Tier) -> BS<Case> {
     cfg.tx.max_common = 3;
     cfg.time = gen::monotonic_time();
     let h = (prop_oneof![5 => Just(Place::ScriptPubKey), 2 => Just(Place::ScriptSig), 2 => Just(Place::Witness)], hostile_bytes(tier), any::<u16>(), any::<u16>(), any::<u16>()).prop_map(|(place, bytes, block, tx, slot)| Hostile { place, bytes, block, tx, slot });
-    (gen::chain(&cfg), proptest::collection::vec(h, 1..=3), prop_oneof![3 => Just(0u8), 2 => Just(1u8), 1 => Just(2u8)]).prop_map(|(chain, hostile, verbose)| Case { chain, hostile, verbose }).boxed()
+    (gen::chain(&cfg), proptest::collection::vec(h, 1..=3), prop_oneof![3 => Just(0u8), 2 => Just(1u8), 1 => Just(2u8)], proptest::bool::weighted(0.3)).prop_map(|(chain, hostile, verbose, verify)| Case { chain, hostile, verbose, verify }).boxed()
 }
 
 /// applies the replacements; returns the modified spec and the hostile scriptPubKeys
@@ -167,7 +170,30 @@ pub fn check(c: &Case) -> Verdict {
             }
         }
     }
-    let mut classes = vec![format!("coin={}", coin.cli()), format!("verbosity={}", c.verbose)];
+    // the same with --verify: a consistent chain stays consistent whatever bytes its scripts hold (the replaced
+    // fields are covered by the txids and merkle roots the harness computes), so from height 1 on - any block 0
+    // will do there - every callback must still complete, with the result of the run without --verify
+    if c.verify && built.tip() >= 1 {
+        for cb in ALL_CALLBACKS {
+            let mut o = RunOpts::new(coin, cb);
+            o.verbose = c.verbose;
+            o.start = Some(1);
+            let plain = infra!(w.run(&o));
+            o.verify = true;
+            let ver = infra!(w.run(&o));
+            runs += 2;
+            if plain.timed_out || ver.timed_out {
+                return Verdict::Infra("tool run hit the watchdog".into());
+            }
+            if !ver.ok() {
+                return Verdict::Fail(format!("--verify -s 1, callback {}: run did not complete with exit status 0 on a consistent chain: {}", cb.cli(), ver.describe()));
+            }
+            if !plain.ok() || canon(cb, &plain) != canon(cb, &ver) {
+                return Verdict::Fail(format!("--verify -s 1, callback {}: result differs from the run without --verify", cb.cli()));
+            }
+        }
+    }
+    let mut classes = vec![format!("coin={}", coin.cli()), format!("verbosity={}", c.verbose), format!("verify={}", c.verify && built.tip() >= 1)];
     let mut nontrivial = false;
     for h in &c.hostile {
         classes.push(format!("place={:?}", h.place));
